@@ -176,7 +176,8 @@ def shrink(ctx, binp, case, budget_s):
     if rr:
         bad, errs, exp = vcheck.coq_eval(ctx, rr, want_expected=True, tag="q")
         n = _first_bad(exp)
-        if bad and n is not None and n + 1 < len(_ops(case)):
+        crashed = str(rr[0].get("obs", "")).startswith(("HOSTPANIC", "HANG"))
+        if bad and not crashed and n is not None and n + 1 < len(_ops(case)):
             case = dict(case, ops=_ops(case)[:n + 1])
     rounds = 0
     while time.time() - t0 < budget_s and rounds < 60:
@@ -241,7 +242,8 @@ def report(ctx, binp, recs, idxs, source, budget_s, minimal=False, allowed=None)
             continue
         e = exps[j] if exps else ""
         n = _first_bad(e)
-        if not minimal and n is not None and n + 1 < len(_ops(c)):
+        crashed = str(rr[j].get("obs", "")).startswith(("HOSTPANIC", "HANG"))   # no per-step observation to cut at
+        if not minimal and not crashed and n is not None and n + 1 < len(_ops(c)):
             c = dict(c, ops=_ops(c)[:n + 1])
         k = known_entry(ctx, c, rr[j], e, allowed) if exps else None
         if k is not None:
